@@ -574,7 +574,11 @@ def ties_and_refusals(fr, x, dt, names, case):
                     pass
                 else:
                     raise Violation("refusal-missing", f"{a} -> {target} by {way} was not refused")
-                if not (np.array_equal(np.asarray(sv.base, float), snap) and sv.frame is fr[a] and sv.form.name == held):
+                # (the setter goes through cartesian and back: the numbers may move by rounding, not more)
+                now = np.asarray(sv.copy(form="cartesian").base, float)
+                same = (float(np.linalg.norm(now[:3] - x[:3])) <= 1e-9 * float(np.linalg.norm(x[:3])) + 1e-9
+                        and float(np.linalg.norm(now[3:] - x[3:])) <= 1e-9 * float(np.linalg.norm(x[3:])) + 1e-12)
+                if not (same and sv.frame is fr[a] and sv.form.name == held):
                     raise Violation("refusal-not-atomic",
                                     f"{a} -> {target} by {way} was refused but left the state in {sv.frame}/{sv.form.name} "
                                     f"with other numbers (it was held in {held})")
